@@ -17,6 +17,8 @@ DOC = {
         'C11.R2': 'execute vs to_shell_str per variant: Remove rm(file); SoftLink/HardLink mv(link,tmp) ln[-s](target,link) rm(tmp); RefLink mv cp--reflink rm; Move mv | cp+rm; execute and space_to_reclaim return the same field\'s length',
         'C11.R3': 'every path interpolated into a shell line derives from Path::quote',
         'C11.R4': 'dedupe: enumerate before par_bridge, one (index, commands) item per group; log_script: every received item is pushed, emitted iff index == next, next += 1 per pop, priority Reverse(index)',
+        'C11.R13': 'the precondition evaluated at generation is the whole precondition: a move whose target cannot be created because a parent of it is not a directory is refused there as well (re-evaluates C18.R1 / C18.R5, parents-checked)',
+        'C11.R12': 'the printed script fails the way the real run fails: for the three link commands the step after `mv link tmp` is conditional - the temporary is removed only if the link was made, otherwise it is moved back (execute: safe_remove / reflink restore the original on error)',
         'C11.R11': 'a command that execute() refuses on a pure precondition test (FsCommand::check_*: the target of a move exists) is not in the script: the same test is reachable from dedupe(), the generator that both the dry run and the real run use, so the printed script and its summary do not announce operations that the real run refuses',
         'C11.R10': 'the script contains no command that is bound to fail where the real run restores and the printed script does not: hard links are planned only between paths whose directory entries are on one device (re-evaluates C02.R6, key-of-the-entry)',
         'C11.R9': 'the commands of one group may depend on each other (a symbolic link and the file it points to): run_script executes the commands of a group one after another in script order (FsCommand::execute is applied by a sequential iterator over the group\'s vector, parallelism is across groups), and dedupe_script puts the commands for symbolic links first (stable sort of to_drop by link-ness)',
@@ -103,6 +105,9 @@ def run(ctx):
     from . import c02
     reevaluate(ctx, 'C11.R10', c02.r6)
     r11(ctx)
+    r11b(ctx)
+    from . import c18
+    reevaluate(ctx, 'C11.R13', c18.r15, ctx.lib)
     r9(ctx)
     from .common import run_mandatory
     run_mandatory(ctx, 'C11')
@@ -199,37 +204,61 @@ def r23(ctx):
                 continue
             lines.append((sn, c))
         sops = []
+        rollbacks = []
         for sn, c in lines:
             tmpl, args = parse_snip(sn)
             if tmpl is None:
                 continue
-            op = None
-            for rx, name in SHELL_OP:
-                if re.search(rx, tmpl):
-                    op = name
-                    break
-            roles = []
-            for a in args:
-                r, q = role_of_expr(sh, sregion, a)
-                roles.append(r)
-                n_quote += 1
-                ctx.check(q, 'C11.R3', '%s|%s|%s' % (sh.path, var, a), c.where(), 'operand `%s` is shell-quoted' % a, 'operand `%s` of `%s` is interpolated without Path::quote' % (a, tmpl))
-            sops.append((op, roles, c))
+            # `if A; then B; else C; fi`: A and B are the steps of the success path, C is what happens when A fails
+            mm = re.match(r'^if (.*?); then (.*?); else (.*?); fi$', tmpl)
+            parts = [(mm.group(1), 'step'), (mm.group(2), 'step'), (mm.group(3), 'rollback')] if mm else [(tmpl, 'step')]
+            ai = 0
+            for sub, kind in parts:
+                nph = len(re.findall(r'\{([a-z_][a-z0-9_]*)?\}', sub))
+                sargs = args[ai:ai + nph]
+                ai += nph
+                op = None
+                for rx, name in SHELL_OP:
+                    if re.search(rx, sub):
+                        op = name
+                        break
+                roles = []
+                for a in sargs:
+                    r, q = role_of_expr(sh, sregion, a)
+                    roles.append(r)
+                    n_quote += 1
+                    ctx.check(q, 'C11.R3', '%s|%s|%s' % (sh.path, var, a), c.where(), 'operand `%s` is shell-quoted' % a, 'operand `%s` of `%s` is interpolated without Path::quote' % (a, sub))
+                (sops if kind == 'step' else rollbacks).append((op, roles, c))
         # compare sequences; Move has two alternatives selected by use_rename in both functions
         key = '%s|%s' % (sh.path, var)
         e_seq = [(o, r) for o, r in eops]
         s_seq = [(o, r) for o, r, _ in sops]
         # macOS alternative `cp -c` is a sibling of `cp --reflink`: collapse duplicates of the same op/roles
         s_seq2 = []
-        for x in s_seq:
-            if not s_seq2 or s_seq2[-1] != x:
-                s_seq2.append(x)
+        kept = []
+        for (o, r, c_) in sops:
+            x = (o, r)
+            # the same step on an exclusive branch (cfg!(target_os) alternatives) is one step
+            excl = any(k[:2] == x and c_.bb != k[2].bb and c_.bb not in sh.reachable(k[2].bb) and k[2].bb not in sh.reachable(c_.bb) for k in kept)
+            if excl or (s_seq2 and s_seq2[-1] == x):
+                continue
+            s_seq2.append(x)
+            kept.append((o, r, c_))
         if var == 'Move':
             # execute: [mv] when rename succeeded else [cp, rm]; shell: mv under use_rename else cp, rm
             good = e_seq == [('mv', ['source', 'target']), ('cp', ['source', 'target']), ('rm', ['source'])] and s_seq2 == e_seq
         else:
             good = e_seq == s_seq2
         where = sops[0][2].where() if sops else sh.where()
+        if var in ('SoftLink', 'HardLink', 'RefLink'):
+            # execute() moves the original back when the link cannot be made (safe_remove / reflink); bash goes on after a failing command,
+            # so the printed script has to say so itself - otherwise its `rm tmp` destroys the original
+            lk = [r for o, r in s_seq2 if o in ('ln', 'ln -s', 'cp-reflink')]
+            want = ('mv', ['tmp', lk[0][1]]) if lk and len(lk[0]) > 1 else None
+            rb = [(o, r) for o, r, _ in rollbacks]
+            ctx.check(want is not None and bool(rb) and all(x == want for x in rb), 'C11.R12', key + '|rolls-back', where, '%s: when the link step fails the script moves the original back (mv tmp link), as the real run does' % var,
+                      '%s: the script is three unconditional lines (mv link tmp; ln ..; rm tmp): when ln fails - EXDEV between two bind mounts of one file system, EMLINK on a file with 65000 links, EPERM under '
+                      'fs.protected_hardlinks, ENOSPC - bash continues and `rm tmp` deletes the original, while the real run renames it back' % var)
         ctx.check(good, rule, key, where, '%s: script %s == real run' % (var, ' ; '.join('%s(%s)' % (o, ','.join(r)) for o, r in s_seq2)),
                   '%s: the script prints %s but execute() performs %s' % (var, ' ; '.join('%s(%s)' % (o, ','.join(r)) for o, r in s_seq2), ' ; '.join('%s(%s)' % (o, ','.join(r)) for o, r in e_seq)))
     ctx.floor('C11.R3', 'operands interpolated into shell lines', n_quote, 14, sh.where())
@@ -433,6 +462,29 @@ def r11(ctx):
         ctx.check(k in gen, rule, k + '|evaluated-at-generation', b.where(), 'the refusal is decided when the script is generated as well (reached from dedupe() through %s)' % ' -> '.join(x.rsplit('::', 1)[-1] for x in (cg.path_to(k)[-4:] if k in gen else [])),
                   '%s makes execute() refuse a command before anything is changed, but nothing evaluates it when the script is generated: `move --dry-run` prints `mv` and counts the file for a target that '
                   'already exists, while the real run warns "Target already exists" and processes nothing (and the printed mv would overwrite the file the real run protects)' % k.rsplit('::', 1)[-1])
+
+
+def r11b(ctx):
+    """link(2) refuses for reasons that are visible before anything is changed (the link count of the retained file is at the limit of
+    the file system, the two paths are on different mounts of one device, fs.protected_hardlinks and a foreign owner): the generator
+    would have to test them to keep the dry-run summary equal to that of the real run."""
+    rule = 'C11.R11'
+    lib = ctx.lib
+    cp = lib.body('dedupe::FsCommand::check_preconditions')
+    if cp is None:
+        return
+    arms = variant_arms(cp, lib, 1)
+    covered = set()
+    if arms:
+        sbb, am, other = arms[0]
+        for v, tgt in am.items():
+            if tgt != other and any(c.bb == tgt or c.bb in cp.reachable(tgt) for c in cp.calls(r'^dedupe::FsCommand::check_\w+$|MetadataExt.*::nlink$|pathconf')):
+                covered.add(v)
+    ctx.check('HardLink' in covered, rule, cp.path + '|HardLink|link-refusals-predicted', cp.where(), 'check_preconditions tests what makes link(2) refuse a hard link',
+              'check_preconditions has no test for HardLink commands: when link(2) refuses - the retained file has reached the link limit of the file system (EMLINK; ext4: 65000), the paths are on two '
+              'bind mounts of one device (EXDEV although st_dev is equal), or fs.protected_hardlinks forbids linking a foreign file (EPERM) - the dry run announces and counts the file, the real run '
+              'warns and counts nothing (the trees agree since the script rolls back, the summaries do not)')
+    return covered
 
 
 def r9(ctx):
